@@ -23,6 +23,7 @@ type c07Op struct {
 }
 
 type c07Case struct {
+	Syn   []int      `json:"synthetic,omitempty"` // indices into the synthetic instruction alphabet of C06 (instead of Segs)
 	Segs  []prog.Seg `json:"segments"`
 	Entry uint64     `json:"entry"`
 	Path  []c07Op    `json:"path"` // history reaching the state
@@ -201,6 +202,7 @@ func c07Invariants(c *deps.Code, m *c07Model, lens map[uint64]uint64) string {
 }
 
 type c07Sys struct {
+	syn   []int
 	segs  []prog.Seg
 	entry uint64
 	ins   []parser.Instruction
@@ -293,6 +295,30 @@ func c07Apply(c *deps.Code, m *c07Model, op c07Op, lens map[uint64]uint64) (stri
 	return "", "", true
 }
 
+// newC07SysSyn builds a single-block code from synthetic instructions.
+func newC07SysSyn(seq []int) (*c07Sys, error) {
+	al := synAlphabet()
+	var pins []parser.Instruction
+	for i, k := range seq {
+		pins = append(pins, parser.Instruction{Type: al[k].Typ, Addr: model.Addr(0x1000 + 4*i), Bytes: make([]byte, 4), Effects: al[k].Effs, Details: synDetails{al[k].Name}})
+	}
+	s := &c07Sys{syn: append([]int{}, seq...), entry: 0x1000, ins: pins, lens: map[uint64]uint64{}}
+	for _, in := range pins {
+		s.lens[uint64(in.Addr)] = 4
+	}
+	if _, err := prog.Code(0x1000, pins); err != nil {
+		return nil, err
+	}
+	return s, nil
+}
+
+func sysOfCase(c c07Case) (*c07Sys, error) {
+	if len(c.Syn) > 0 {
+		return newC07SysSyn(c.Syn)
+	}
+	return newC07Sys(c.Segs, c.Entry)
+}
+
 func newC07Sys(segs []prog.Seg, entry uint64) (*c07Sys, error) {
 	ins, err := prog.Instructions(segs)
 	if err != nil {
@@ -317,7 +343,7 @@ func c07Explore(r *eng.Run, s *c07Sys, maxStates int) *eng.Fail {
 				txt = append(txt, prog.Dis(w))
 			}
 		}
-		return c07Case{Segs: s.segs, Entry: s.entry, Path: append([]c07Op{}, path...), Op: op, Text: txt}
+		return c07Case{Syn: s.syn, Segs: s.segs, Entry: s.entry, Path: append([]c07Op{}, path...), Op: op, Text: txt}
 	}
 	c0, m0, err := s.build(nil)
 	if err != nil {
@@ -415,7 +441,7 @@ func c07Tour(r *eng.Run, s *c07Sys, depth int, visit func(c *deps.Code, ops []c0
 	}
 	var ops []c07Op
 	mk := func(op *c07Op) c07Case {
-		return c07Case{Segs: s.segs, Entry: s.entry, Path: append([]c07Op{}, ops...), Op: op, Text: c05TextOf(s), Tour: true}
+		return c07Case{Syn: s.syn, Segs: s.segs, Entry: s.entry, Path: append([]c07Op{}, ops...), Op: op, Text: c05TextOf(s), Tour: true}
 	}
 	if inv := c07Invariants(c, m, s.lens); inv != "" {
 		return &eng.Fail{Sig: "initial invariant", What: inv, Case: mk(nil)}
@@ -478,6 +504,9 @@ func c07Tour(r *eng.Run, s *c07Sys, depth int, visit func(c *deps.Code, ops []c0
 
 func c05TextOf(s *c07Sys) []string {
 	var txt []string
+	for _, k := range s.syn {
+		txt = append(txt, synAlphabet()[k].Name)
+	}
 	for _, sg := range s.segs {
 		for _, w := range sg.Words {
 			txt = append(txt, prog.Dis(w))
@@ -513,7 +542,7 @@ func c07Replay(r *eng.Run, raw json.RawMessage) *eng.Fail {
 	if err := json.Unmarshal(raw, &c); err != nil {
 		panic(err)
 	}
-	s, err := newC07Sys(c.Segs, c.Entry)
+	s, err := sysOfCase(c)
 	if err != nil {
 		return nil
 	}
@@ -567,6 +596,24 @@ func c07Codes(r *eng.Run) []*c07Sys {
 		}
 	}
 	rec(nil)
+	// synthetic single-block codes: effect shapes the RISC-V front end never produces
+	na := len(synAlphabet())
+	for i := 0; i < na; i++ {
+		for j := 0; j < na; j++ {
+			for k := -1; k < na; k++ {
+				seq := []int{i, j}
+				if k >= 0 {
+					if r.Quick() && (i+j+k)%3 != 0 {
+						continue
+					}
+					seq = append(seq, k)
+				}
+				if s, err := newC07SysSyn(seq); err == nil {
+					out = append(out, s)
+				}
+			}
+		}
+	}
 	// multi-block codes: branches/jumps creating 2..3 blocks of different sizes, gaps, entry in the middle
 	multi := []struct {
 		segs  []prog.Seg
@@ -590,7 +637,7 @@ func c07Codes(r *eng.Run) []*c07Sys {
 func init() {
 	checks["C07"] = eng.Check{
 		Hist: true,
-		Rule: "explicit-state BFS to closure (state = block order + per-block instruction order) on every single-block code of <=3 (thorough 4) instructions over a 14-word alphabet built around the dependency rules and 4 multi-block codes (branches, gaps, mid-code entry, blocks of different sizes); menu in every state: Block.Move(i,j) for all i,j in [-1,n] of every block, Code.Move(i,j) for all i,j in [-1,nb]; successor = fresh real code + replay of the shortest path + the operation. Oracles: admission iff positions valid and target within the bounds reported before the move; rejected => full snapshot unchanged; accepted => model rotation; per state: own bounds, contiguous addresses, indices, Block.Address/Code.Address lookups incl. begin-1/mid/end, every dependency edge (hook) ordered; equal orders reached by different histories must have equal snapshots. Second pass per code: a depth-3 (thorough 4) DFS tour over accepted, rejected and undo moves on ONE long-lived instance (never rebuilt) with the same oracles after every operation, so that state hidden from the snapshot (caches) accumulated over a history is exercised. Non-trivial = code with at least 2 reachable states.",
+		Rule: "explicit-state BFS to closure (state = block order + per-block instruction order) on every single-block code of <=3 (thorough 4) instructions over a 14-word alphabet built around the dependency rules, every (quick: a third of the) single-block code of 2..3 synthetic instructions from the 17-instruction alphabet of C06 (multi-store, multi-write, multi-space effects) and 4 multi-block codes (branches, gaps, mid-code entry, blocks of different sizes); menu in every state: Block.Move(i,j) for all i,j in [-1,n] of every block, Code.Move(i,j) for all i,j in [-1,nb]; successor = fresh real code + replay of the shortest path + the operation. Oracles: admission iff positions valid and target within the bounds reported before the move; rejected => full snapshot unchanged; accepted => model rotation; per state: own bounds, contiguous addresses, indices, Block.Address/Code.Address lookups incl. begin-1/mid/end, every dependency edge (hook) ordered; equal orders reached by different histories must have equal snapshots. Second pass per code: a depth-3 (thorough 4) DFS tour over accepted, rejected and undo moves on ONE long-lived instance (never rebuilt) with the same oracles after every operation, so that state hidden from the snapshot (caches) accumulated over a history is exercised. Non-trivial = code with at least 2 reachable states.",
 		Assumptions: []string{"dependency edges read through the add-only hook deps.VerifEdges"},
 		Run: func(r *eng.Run) {
 			codes := c07Codes(r)
